@@ -171,7 +171,7 @@ def _h_inner_callback(em, n, args, dst):
 
 RECIPES.update({
     'mpi_callback_call': dict(unit='mpi', name='operator()', cls='mpi_callback', self='mpi_callback',
-                              opts=dict(free_calls={'MPI_Comm_rank': _h_mpi_rank}, operator_calls={('callback', 'operator()'): _h_inner_callback},
+                              opts=dict(byval_copy=True, free_calls={'MPI_Comm_rank': _h_mpi_rank}, operator_calls={('callback', 'operator()'): _h_inner_callback},
                                         member_calls={('callback', 'mode'): (lambda em, n, obj, args, dst: ('vp_callback_set_mode(&(%s), %s)' % (obj, em.emit(args[0]))) if args else ('vp_callback_get_mode(&(%s))' % obj))})),
 })
 
@@ -189,7 +189,7 @@ def _h_chi(em, n, args, dst):
 RECIPES.update({
     # unsigned wrap allowed: nnf = non_zero_calls - finite_calls is only printed
     'callback_call': dict(unit='chkpt', name='operator()', cls='callback', self='callback', allow_unsigned_wrap=True,
-                          opts=dict(free_calls={'accumulate': _h_combine, 'chi_square_dof': _h_chi},
+                          opts=dict(byval_copy=True, free_calls={'accumulate': _h_combine, 'chi_square_dof': _h_chi},
                                     member_calls={('*', 'serialize'): (lambda em, n, obj, args, dst: 'vp_chkpt_serialize_call(&(%s), &(%s))' % (obj, em.emit(args[0])))},
                                     rename={'vp_ofstream_ctor1': 'vp_ofstream_open', 'mc_result_error': 'mc_result_error_det'})),
 })
